@@ -225,10 +225,160 @@ type Binding struct {
 	// is a forwarding adapter around a named handler.
 	IdP, ValP string
 	Adapters  []*Func
+	// Inline: the scan is a loop written in Closure itself (no handler literal): the unit's paths are those of
+	// Closure that enter Loop; IdP and ValP are the terms of the scanned id and of the record loaded for it.
+	Inline bool
+	Loop   ast.Stmt
 }
 
-func (b *Binding) id() *Term  { return atom(b.IdP) }
-func (b *Binding) val() *Term { return atom(b.ValP) }
+func (b *Binding) id() *Term {
+	if b.Inline {
+		return parseTerm(b.IdP)
+	}
+	return atom(b.IdP)
+}
+func (b *Binding) val() *Term {
+	if b.Inline {
+		return parseTerm(b.ValP)
+	}
+	return atom(b.ValP)
+}
+
+// unitPaths: the paths on which the unit handles one scanned element.
+func (c *Check) unitPaths(b *Binding) []*Path {
+	ps := c.P.PathsOf(b.Closure)
+	if !b.Inline {
+		return ps
+	}
+	var out []*Path
+	for _, pa := range ps {
+		for _, ev := range pa.Events {
+			if ev.Kind == EvLoop && ev.Node == ast.Node(b.Loop) {
+				out = append(out, pa)
+				break
+			}
+		}
+	}
+	return out
+}
+
+// isID: the term is the scanned id of the unit.
+func (b *Binding) isID(t *Term) bool {
+	if b.Inline {
+		return stripConv(t).String() == b.IdP
+	}
+	return t.IsAt(b.IdP)
+}
+
+// inlineScanUnits: functions that scan the family in a loop of their own and change state for each element there
+// (a handler literal and the iterating function it was handed to, written as one function).
+func (c *Check) inlineScanUnits(family string) []*Binding {
+	p := c.P
+	var out []*Binding
+	for _, f := range p.Funcs {
+		if !f.isHandWritten() || f.Body == nil || f.Parent != nil {
+			continue
+		}
+		if pk := f.pkgName(); pk != "service" && pk != "keeper" {
+			continue
+		}
+		scans := false
+		for _, e := range p.SummaryOf(f).Effs {
+			if e.Kind == "store" && e.Op == "Iter" && e.Family == family && len(e.Chain) <= 1 {
+				scans = true
+			}
+			if e.Kind == "dyn" && len(e.Chain) == 0 {
+				scans = false // hands the elements to a function value: an iterating function
+				break
+			}
+		}
+		if !scans {
+			continue
+		}
+		var b *Binding
+		for _, pa := range p.PathsOf(f) {
+			var loop ast.Stmt
+			var id, val, decoded *Term
+			mutates := false
+			for _, ev := range pa.Events {
+				if ev.Kind != EvCall || ev.Loop == nil {
+					continue
+				}
+				for _, a := range ev.CI.args {
+					if id == nil && p.scansFamily(a, family) && isByteSlice(a.Typ) && !strings.HasSuffix(stripConv(a).Op, "Iterator.Value") && !strings.HasSuffix(stripConv(a).Op, "Iterator.Key") {
+						id = stripConv(a)
+						loop = ev.Loop
+					}
+				}
+				if id != nil && val == nil && ev.CI.fn != nil && len(ev.CI.fn.Res) >= 1 && namedStruct(ev.CI.fn.Res[0].Type()) != "" {
+					n := 0
+					same := false
+					for _, a := range ev.CI.args {
+						if a.IsAt("ctx") {
+							continue
+						}
+						n++
+						if stripConv(a).String() == id.String() {
+							same = true
+						}
+					}
+					if n == 1 && same {
+						val = mk("res", atom("0"), ev.Result).withType(ev.CI.fn.Res[0].Type())
+					}
+				}
+				// the record decoded from the scanned value itself
+				if decoded == nil && (strings.HasSuffix(ev.CI.name, ".MustUnmarshalBinaryBare") || strings.HasSuffix(ev.CI.name, ".UnmarshalBinaryBare")) && len(ev.CI.args) == 2 {
+					if a0 := stripConv(ev.CI.args[0]); strings.HasSuffix(a0.Op, "Iterator.Value") && p.scansFamily(a0, family) {
+						if pt, ok := ev.CI.args[1].Typ.(*types.Pointer); ok && namedStruct(pt.Elem()) != "" {
+							decoded = mk("out", ev.Result, atom("1")).withType(pt.Elem())
+							if loop == nil {
+								loop = ev.Loop
+							}
+						}
+					}
+				}
+				for _, e := range p.effectsOfEvent(f, ev) {
+					if e.Mutates() && (e.Kind == "store" || e.Kind == "bank") {
+						mutates = true
+					}
+				}
+			}
+			if val == nil && decoded != nil {
+				val = decoded
+				if id == nil {
+					id = atom("?")
+				}
+			}
+			if id != nil && val != nil && mutates {
+				b = &Binding{Closure: f, Iter: f, Inline: true, Loop: loop, IdP: id.String(), ValP: val.String(), Args: []*Term{id, val}}
+				break
+			}
+		}
+		if b == nil {
+			continue
+		}
+		// the call that starts the scan
+		for _, g := range p.Funcs {
+			if b.Call != nil || !g.isHandWritten() || g.Body == nil || g == f {
+				continue
+			}
+			if pk := g.pkgName(); pk != "service" && pk != "keeper" {
+				continue
+			}
+			for _, pa := range p.PathsOf(g) {
+				for _, ev := range pa.Events {
+					if ev.Kind == EvCall && ev.CI.fn == f && b.Call == nil {
+						b.Caller, b.Call = g, ev
+					}
+				}
+			}
+		}
+		if b.Call != nil {
+			out = append(out, b)
+		}
+	}
+	return out
+}
 
 // resolveAdapter looks through closures that do nothing but forward their parameters to one
 // module function: the unit that handles the scanned element is that function.
@@ -374,6 +524,9 @@ func (c *Check) closuresBoundToScan(family string) []*Binding {
 			}
 		}
 	}
+	if len(out) == 0 {
+		out = c.inlineScanUnits(family)
+	}
 	// a literal that only gathers the scanned records for a later pass is not the handler of the scan
 	if len(out) > 1 {
 		var keep []*Binding
@@ -422,6 +575,14 @@ func (c *Check) closeFacts(fs FactSet) FactSet {
 			// a check with a single cause of failure: it fails exactly when that one condition fails
 			if x, ok := c.singleFailureCause(g); ok {
 				for _, nf := range x.Not().SubstAll(m) {
+					if !out.Has(nf) && !nf.T.IsAt("#true") && !nf.T.IsAt("#false") {
+						out.Add(nf)
+					}
+				}
+			}
+			// what every failing exit of the check has established (it rejects only under these conditions)
+			for _, ff := range c.failureFacts(g) {
+				for _, nf := range ff.SubstAll(m) {
 					if !out.Has(nf) && !nf.T.IsAt("#true") && !nf.T.IsAt("#false") {
 						out.Add(nf)
 					}
@@ -694,6 +855,53 @@ func (c *Check) nParsePricing() string {
 
 // singleFailureCause: g returns only an error and has one committed and one rejecting path that differ in exactly
 // one fact x (x on success, ¬x on failure, everything else alike): ok(g) ⇔ x.
+// failureFacts: the facts over g's parameters common to every exit of g that may return an error (a path that
+// returns another call's error unexamined counts as such an exit).
+func (c *Check) failureFacts(g *Func) []Fact {
+	if g == nil || g.Body == nil || c.P.pathsBusy[g] || len(g.Res) == 0 || !isErrorType(g.Res[len(g.Res)-1].Type()) {
+		return nil
+	}
+	if v, ok := c.failMemo[g]; ok {
+		return v
+	}
+	if c.failMemo == nil {
+		c.failMemo = map[*Func][]Fact{}
+	}
+	c.failMemo[g] = nil
+	var common FactSet
+	n := 0
+	for _, pa := range c.P.PathsOf(g) {
+		if pa.Exit != ExitRevert && pa.Exit != ExitMaybe {
+			continue
+		}
+		n++
+		if common == nil {
+			common = pa.AllFacts()
+		} else {
+			common = common.Intersect(pa.AllFacts())
+		}
+	}
+	var out []Fact
+	if n > 0 {
+		for _, k := range common.Sorted() {
+			fa := common[k]
+			// only conditions on the parameters themselves
+			local := false
+			fa.T.Walk(func(t *Term) bool {
+				if t.Op == "res" || t.Op == "out" || t.Op == "key" || t.Op == "elem" {
+					local = true
+				}
+				return !local
+			})
+			if !local {
+				out = append(out, fa)
+			}
+		}
+	}
+	c.failMemo[g] = out
+	return out
+}
+
 func (c *Check) singleFailureCause(g *Func) (Fact, bool) {
 	if g == nil || g.Body == nil || c.P.pathsBusy[g] || len(g.Res) == 0 || !isErrorType(g.Res[len(g.Res)-1].Type()) {
 		return Fact{}, false
